@@ -290,6 +290,9 @@ def gen_stack_x(rng, names, lev=False, rank_ok=True, flow_ok=True):
         if wgh[0] != "WeighEqually" or sels[0][0] == "SelectThese":
             sels, wgh = [["SelectAll"]], ["WeighEqually"]
     st = [sched] + sels + [wgh, ["Rebalance"]]
+    if rng.random() < 0.15 and sched[0] in KINDS:
+        # dated target weights: [scheduler, WeighTarget(frame over a subset of the dates), Rebalance]
+        st = [sched, ["WeighTarget", rng.randint(0, 10 ** 6)], ["Rebalance"]]
     if flow_ok and rng.random() < 0.25:
         st = [["CapitalFlow", float(rng.choice([100.0, 2500.0, 10000.0, -50.0, -1000.0]))]] + st
     return st
@@ -318,7 +321,7 @@ def gen_spec_x(rng, nested=None):
     # a late listing may only meet stacks whose selection filters on data
     def safe(t):
         st = t["stack"]
-        return st[-2][0] == "WeighEqually" and all(safe(k) for k in t["kids"])
+        return st[-2][0] == "WeighEqually" and all(safe(k) for k in t["kids"])     # (a WeighTarget stack is not: it trades by name)
     if not safe(spec["tree"]):
         for j, t in enumerate(spec["tickers"]):
             spec["prices"][t] = [p if p is not None else 10.0 + 0.37 * i + j for i, p in enumerate(spec["prices"][t])]
@@ -334,7 +337,8 @@ def ser_progx(bt, node, spec_node, bdates, first_row=1):
         flow = float(st[0][1])
         st = st[1:]
     sched, sels, wgh = st[0], st[1:-2], st[-2]
-    toks = ["X", E.tO(flow)]
+    is_target = wgh[0] == "WeighTarget"
+    toks = ["T" if is_target else "X", E.tO(flow)]
     if sched[0] in KINDS:
         toks += [str(KINDS[sched[0]]), E.tB(sched[1]), E.tB(sched[2]), E.tB(sched[3])]
     elif sched[0] == "RunOnce":
@@ -345,6 +349,26 @@ def ser_progx(bt, node, spec_node, bdates, first_row=1):
         toks += ["7", str(sched[1]), str(first_row)]
     else:
         raise ValueError(sched[0])
+    if is_target:
+        algo = [a for a in node.stack.algos if type(a).__name__ == "WeighTarget"][0]
+        wf = algo.weights
+        rows = []
+        for d in bdates:
+            if d in wf.index:
+                r = wf.loc[d]
+                items = [(name_idx[c], float(r[c])) for c in wf.columns if r[c] == r[c]]
+                rows.append("%d %s" % (len(items), " ".join("%d %s" % (i, E.tF(x)) for i, x in items)))
+            else:
+                rows.append("N")
+        toks.append("%d %s" % (len(rows), " ".join(rows)))
+        by_name = {k["name"]: k for k in spec_node["kids"]}
+        toks.append(str(len(kids)))
+        for k in kids:
+            if isinstance(k, bt.core.StrategyBase):
+                toks.append("P " + ser_progx(bt, k, by_name[k.name], bdates, first_row))
+            else:
+                toks.append("N")
+        return " ".join(toks)
     ucols = [name_idx[c] for c in node._universe.columns if c in name_idx]
     toks.append(E.tL(ucols, str))
     dates = [pd.Timestamp(d) for d in bdates]
